@@ -304,7 +304,7 @@ def walk(machine_or_state, sep, pre=()):
         for src, ts in ev.transitions.items():
             for t in ts:
                 out.append((name, tuple(pre) + tuple(t.source.split(sep)),
-                            None if t.dest is None else tuple(pre) + tuple(t.dest.split(sep)), tuple(pre)))
+                            None if t.dest is None else tuple(pre) + tuple(t.dest.split(sep)), tuple(pre), t))
     for sname, st in machine_or_state.states.items():
         out += walk(st, sep, tuple(pre) + (sname,))
     return out
@@ -380,6 +380,28 @@ def impl(case):
             if bool(machine.get_transitions(e)) != (e in alive):
                 fail(step, 'G get_transitions(%s) %s although the event has %s transition' % (
                     e, 'is empty' if e in alive else 'is not empty', 'a' if e in alive else 'no'))
+        # Q: get_transitions(trigger, source, dest) returns exactly the matching transitions, for every combination
+        # of a source and a destination that occur for the event (top-level / nested x top-level / nested, declared at
+        # the machine or inside a state; matching and non-matching pairs), with one filter and with both
+        glob = dict((id(t[4]), (t[1], t[2])) for t in got)
+        for e in sorted(set(t[0] for t in got if not t[0].startswith('to_'))):
+            mine = [t for t in got if t[0] == e]
+            srcs = [None] + sorted(set(t[1] for t in mine))
+            dsts = [None] + sorted(set(t[2] for t in mine if t[2] is not None))
+            for qs in srcs:
+                for qd in dsts:
+                    kw = {}
+                    if qs is not None:
+                        kw['source'] = sep.join(qs)
+                    if qd is not None:
+                        kw['dest'] = sep.join(qd)
+                    res = machine.get_transitions(e, **kw)
+                    have = sorted((glob.get(id(x), ('?', x.source, x.dest)) for x in res), key=repr)
+                    want_q = sorted(((t[1], t[2]) for t in mine if (qs is None or t[1] == qs) and (qd is None or t[2] == qd)),
+                                    key=repr)
+                    if have != want_q:
+                        fail(step, 'Q get_transitions(%s, source=%s, dest=%s) returns %r, matching are %r' % (
+                            e, kw.get('source', '*'), kw.get('dest', '*'), have[:3], want_q[:3]))
         # H, E
         for mid, model in models:
             own = set(n for n, v in descs[mid]['cls'] + descs[mid]['inst'] if v[0] in ('pre', 'own'))
